@@ -3,7 +3,7 @@
 import itertools
 import re
 
-from ..common import Result, Violation, pmap, digest
+from ..common import Result, Violation, pmap, digest, debug_logging
 from ..oracles.firmware import LineFirmware, xor_checksum, N_RE
 from .. import engine_sched as ES
 from ..printrun_harness import Execution, PC, install_line_points
@@ -34,6 +34,13 @@ def expected_commands(job):
 
 
 def run_execution(cfg, prefix, record=False):
+    if cfg.get("debug_log"):
+        with debug_logging():              # the application runs the sender with DEBUG logging switched on
+            return _run_execution(cfg, prefix, record)
+    return _run_execution(cfg, prefix, record)
+
+
+def _run_execution(cfg, prefix, record=False):
     fw = LineFirmware(cfg["dialect"], cfg["corrupt"], greeting=cfg["greeting"])
     ex = Execution(prefix, fw, eager_env=cfg["eager"], line_points=cfg["line_points"], horizon=cfg.get("horizon", 12000),
                    record_points=record)
@@ -235,6 +242,11 @@ def plan(tier):
             for corrupt in ((), (0,)):
                 base = {"job": "J9", "dialect": dialect, "greeting": None, "eager": False, "corrupt": corrupt}
                 items.append(({**base, "line_points": True}, 0, None))
+        for dialect in ("A", "B"):
+            for corrupt in ((), (2,)):
+                base = {"job": "J3", "dialect": dialect, "greeting": None, "eager": False, "corrupt": corrupt, "debug_log": True}
+                items.append(({**base, "line_points": True}, 0, None))
+                items.append(({**base, "line_points": False}, 1, None))
         for dialect in ("A", "B"):
             for corrupt in ((), (1,)):
                 base = {"job": "J10", "dialect": dialect, "greeting": None, "eager": False, "corrupt": corrupt}
